@@ -1,6 +1,6 @@
 use rand::Rng;
 
-use crate::{utils::ArrayMap, Color, Piece, PieceIndex, Square, State};
+use crate::{utils::ArrayMap, Color, File, Piece, PieceIndex, Side, Square, State};
 
 pub type Hash = u64;
 
@@ -8,6 +8,8 @@ pub type Hash = u64;
 pub struct ZobristHasher {
     turn_hash: ArrayMap<Color, u64>,
     piece_hash: ArrayMap<Square, ArrayMap<PieceIndex, u64>>,
+    castle_hash: ArrayMap<Color, ArrayMap<Side, u64>>,
+    en_passant_hash: ArrayMap<File, u64>,
 }
 
 impl ZobristHasher {
@@ -18,6 +20,8 @@ impl ZobristHasher {
         Self {
             turn_hash: ArrayMap::from_fn(|_| rng.next_u64()),
             piece_hash: ArrayMap::from_fn(|_| ArrayMap::from_fn(|_| rng.next_u64())),
+            castle_hash: ArrayMap::from_fn(|_| ArrayMap::from_fn(|_| rng.next_u64())),
+            en_passant_hash: ArrayMap::from_fn(|_| rng.next_u64()),
         }
     }
 
@@ -32,6 +36,20 @@ impl ZobristHasher {
                     hash ^= self.piece_hash[square][piece_index];
                 }
             }
+        }
+
+        // Castling rights and the en passant target decide which moves are legal,
+        // so two positions that differ in them must not share a hash
+        for color in Color::ALL {
+            for side in Side::ALL {
+                if state.castle_rights(*color).for_side(*side) {
+                    hash ^= self.castle_hash[*color][*side];
+                }
+            }
+        }
+
+        if let Some(square) = state.en_passant_target() {
+            hash ^= self.en_passant_hash[square.file()];
         }
 
         hash ^= self.turn_hash[state.turn_to_move()];
